@@ -188,7 +188,7 @@ def accepted_counter_cut(p, ga, T=None):
     is_counter = lambda x: isinstance(x, tuple) and len(x) == 3 and x[0] == "field" and x[2] == "counter"
     upd_ok, _ = flow.success_edges(p, ga, is_update, T)
     _, no_counter = flow.success_edges(p, ga, is_counter, T)
-    oks = [s["bb"] for s in flow.outcome_sites(ga) if s["kind"] == "Ok" and s["path"] == ()]
+    oks = flow.ok_sites(p, ga, T)
     if not upd_ok or not oks:
         return False, upd_ok, no_counter
     return flow.cut_by_edges(ga, 0, oks, list(upd_ok) + list(no_counter)), upd_ok, no_counter
